@@ -238,5 +238,74 @@ def r18_5(ctx):
     (ctx.ok(construct, f.loc(cm[0]), nontrivial=False) if ok else ctx.bad(construct, "comment handling changed", f.loc()))
 
 
+def _regex_of(repo, fn, attr: str):
+    for n in ast.walk(fn):
+        if isinstance(n, ast.Assign) and ast.unparse(n.targets[0]) == f"self.{attr}" and isinstance(n.value, ast.Call) \
+                and ast.unparse(n.value.func) == "re.compile" and isinstance(n.value.args[0], ast.Constant):
+            return n.value.args[0].value, n
+    return None, None
+
+
+def _alternatives(pattern: str) -> Set[str]:
+    return set(re.findall(r"\(\??:?\s*([a-z]+)(?:\(\?!\w+\))?\s*\)", pattern))
+
+
+def r18_6(ctx):
+    """R18.6 keyword tables of the indentation checker agree: every entry keyword that opens an indentation level and is not
+    a block opener of its own (mainmenu/help) is re-parented to the enclosing menu/choice/if; opening and closing keyword
+    regexes are anchored alike (prefix match); both name-length checks compare the prefix-less name with the same limit."""
+    repo = ctx.repo
+    init = repo.func(f"{MOD}:IndentAndNameChecker.__init__")
+    upd = repo.func(f"{MOD}:IndentAndNameChecker.update_level_for_inc_pattern")
+    ctx.analysed(init.qual, upd.qual)
+    inc, inc_node = _regex_of(repo, init.node, "re_increase_level")
+    dec, dec_node = _regex_of(repo, init.node, "re_decrease_level")
+    if inc is None or dec is None:
+        raise AnchorError("re_increase_level / re_decrease_level not found as literal regexes")
+    inc_kw = _alternatives(inc)
+    # the list of re-parented items: a literal list in the `new_item in [...]` test or an attribute assigned a literal tuple/list
+    listed: Set[str] = set()
+    for n in ast.walk(upd.node):
+        if isinstance(n, ast.Compare) and isinstance(n.ops[0], ast.In) and ast.unparse(n.left) == "new_item":
+            c = n.comparators[0]
+            if isinstance(c, (ast.List, ast.Tuple, ast.Set)):
+                listed |= {e.value for e in c.elts if isinstance(e, ast.Constant)}
+            elif isinstance(c, ast.Attribute):
+                for a in ast.walk(init.node):
+                    if isinstance(a, ast.Assign) and ast.unparse(a.targets[0]) == ast.unparse(c) and isinstance(a.value, (ast.List, ast.Tuple, ast.Set)):
+                        listed |= {e.value for e in a.value.elts if isinstance(e, ast.Constant)}
+    want = inc_kw - {"mainmenu", "help"}
+    construct = "IndentAndNameChecker/every level-opening entry keyword is re-parented to the enclosing block"
+    if len(inc_kw) < 10 or not listed:
+        raise AnalysisError(f"keyword tables not extracted (inc={sorted(inc_kw)}, listed={sorted(listed)})")
+    missing = sorted(want - listed)
+    (ctx.bad(construct, f"{missing} open an indentation level but are not in the re-parenting list: such an entry after a config is expected at the config's "
+             "help indentation, a compliant file is reported and --replace moves the line into the help text", upd.loc()) if missing else
+     ctx.ok(construct, upd.loc(), keywords=sorted(want)))
+    construct = "IndentAndNameChecker/opening and closing keyword regexes are anchored alike"
+    norm = lambda p: re.sub(r"\s+", "", p)
+    ok = norm(inc).startswith("^\\s*(") and norm(dec).startswith("^\\s*(") and norm(inc).endswith(")") == norm(dec).endswith(")") and not norm(dec).endswith("$")
+    (ctx.ok(construct, init.loc(dec_node)) if ok else
+     ctx.bad(construct, f"the closing-keyword regex ends with {norm(dec)[-3:]!r}: `endif  ` / `endmenu # comment` no longer close the block, the level stack never "
+             "shrinks and later entries are re-indented deeper on every pass", init.loc(dec_node)))
+    pair = None
+    for n in ast.walk(init.node):
+        if isinstance(n, ast.Assign) and ast.unparse(n.targets[0]) == "self.pair_dic" and isinstance(n.value, ast.Dict):
+            pair = {k.value for k in n.value.keys if isinstance(k, ast.Constant)}
+    construct = "IndentAndNameChecker/every closing keyword has its opener"
+    (ctx.ok(construct, init.loc(), nontrivial=False) if pair is not None and pair == _alternatives(dec) else
+     ctx.bad(construct, f"pair_dic keys {sorted(pair or [])} vs closing regex {sorted(_alternatives(dec))}", init.loc()))
+    rn = repo.func(f"{MOD}:ConfigNameChecker.rule_name_len")
+    cn = repo.func(f"{MOD}:IndentAndNameChecker.check_name_and_update_prefix")
+    ctx.analysed(rn.qual, cn.qual)
+    c1 = [n for n in ast.walk(rn.node) if isinstance(n, ast.Compare) and "CONFIG_NAME_MAX_LENGTH" in ast.unparse(n)]
+    c2 = [n for n in ast.walk(cn.node) if isinstance(n, ast.Compare) and "CONFIG_NAME_MAX_LENGTH" in ast.unparse(n)]
+    construct = "ConfigNameChecker.rule_name_len/length limit applies to the name without the CONFIG_ prefix (as in Kconfig files)"
+    ok = bool(c1) and bool(c2) and "len(CONFIG_PREFIX)" in ast.unparse(c1[0].left) and isinstance(c1[0].ops[0], ast.Gt) and isinstance(c2[0].ops[0], ast.Gt)
+    (ctx.ok(construct, rn.loc(c1[0]) if c1 else rn.loc()) if ok else
+     ctx.bad(construct, "the rename-file check counts the prefix: a name that is legal in a Kconfig file is rejected in sdkconfig.rename (no suggestion, never converges)",
+             rn.loc(c1[0]) if c1 else rn.loc()))
+
+
 def rules():
-    return [("R18.1", r18_1, 3), ("R18.2", r18_2, 4), ("R18.3", r18_3, 3), ("R18.4", r18_4, 2), ("R18.5", r18_5, 4)]
+    return [("R18.1", r18_1, 3), ("R18.2", r18_2, 4), ("R18.3", r18_3, 3), ("R18.4", r18_4, 2), ("R18.5", r18_5, 4), ("R18.6", r18_6, 4)]
